@@ -240,3 +240,17 @@ func verifGenChunkSize(r *vrand.Rand) uint32 {
 	}
 	return verifChunkSizes[r.Intn(len(verifChunkSizes))]
 }
+
+func verifMin(a, b int) int {
+	if a < b {
+		return a
+	}
+	return b
+}
+
+func verifMax(a, b int) int {
+	if a > b {
+		return a
+	}
+	return b
+}
